@@ -525,6 +525,9 @@ impl Cw1Scen {
             // duplicates are possible and are kept by the contract
             if rng.chance(1, 20) {
                 v.push(format!("-{}", invalid_addr(rng, &self.pool)));
+            } else if rng.chance(1, 12) {
+                // the proxy lists itself (every message it relays to itself then arrives with admin rights)
+                v.push(format!("+{}", self.env.contract.address));
             } else {
                 v.push(format!("+{}", rng.pick(&self.pool)));
             }
